@@ -14,7 +14,7 @@ COMMON_NOTE = ("Trusted: Coq 8.16.1 kernel (vm_compute used, no native_compute);
 
 chk("C11", "proof",
     "Coq theorems: base-62 integer codec round-trips for every Z; VTMF_Card, VTMF_CardSecret, TMCG_Card and TMCG_CardSecret (all k<=TMCG_MAX_PLAYERS, w<=TMCG_MAX_TYPEBITS), "
-    "TMCG_Stack<VTMF_Card>, TMCG_Stack<TMCG_Card>, TMCG_StackSecret<VTMF_CardSecret> and TMCG_StackSecret<TMCG_CardSecret> (all sizes <= TMCG_MAX_CARDS) import(export x) = x; the TMCG_PublicKey text round-trips for every key whose string fields contain no delimiter (guard shown necessary); limits regenerated from libTMCG.hh. "
+    "TMCG_Stack<VTMF_Card>, TMCG_Stack<TMCG_Card>, TMCG_StackSecret<VTMF_CardSecret> and TMCG_StackSecret<TMCG_CardSecret> (all sizes <= TMCG_MAX_CARDS) import(export x) = x; the TMCG_PublicKey text round-trips for every key whose string fields contain no delimiter (guard shown necessary); export is injective on every modelled type; limits regenerated from libTMCG.hh. "
     "Correspondence: every export/import call of the real code on generated and mutated texts is recomputed by the extracted model.",
     COMMON_NOTE + "Not modelled: getline buffer truncation, TMCG_SecretKey and group/state texts of the protocol classes (implementation-level round-trip oracle only).",
     "Coq proof (round-trip theorems) + extracted-model differential correspondence", "DESIGN.md §5 C11")
